@@ -20,6 +20,7 @@ def hasTryS : Stmt → Bool
   | .forS _ _ _ b => hasTryS b
   | .labelled _ s => hasTryS s
   | .switchS _ cs => hasTryC cs
+  | .withS _ b => hasTryS b
   | _ => false
 def hasTryL : Stmts → Bool
   | .nil => false
